@@ -11,7 +11,9 @@ true edge it is edge-dominated by:
     full        cellBoundaryInsidePolygon(.., &b, ..), b  from cellToBoundary(x, &b)
     descendants cellBoundaryInsidePolygon(.., &bb, ..), bb from bboxToCellBoundary(&box), box from cellToBBox(x, &box, true)  (the box covers all children)
 and the function is explored with the containment mode field of `iter->_flags` fixed: in mode CENTER only centre / descendants stores may be
-reached, in mode FULL only full / descendants stores.  A reachable store without an admitted gate is a VIOLATION (a cell is emitted that was not
+reached, in mode FULL only full / descendants stores; in the two overlapping modes every path to a reachable store must pass the success edge of
+one of the tests that mode admits (centre, polygon's first vertex lies in the cell, boundary crosses, ... - a disjunction).  A reachable store
+without an admitted gate is a VIOLATION (a cell is emitted that was not
 tested, or tested with another cell's geometry, or by the test of another mode).  Whether the tests themselves are geometrically right is not
 decided here."""
 from . import ir, explore
@@ -19,7 +21,9 @@ from .explore import Explorer, const
 from .build import AnalysisBroken
 
 RULE = "R-GATE"
-MODES = {0: ("CENTER", {"centre", "descendants"}), 1: ("FULL", {"full", "descendants"})}
+MODES = {0: ("CENTER", {"centre", "descendants"}), 1: ("FULL", {"full", "descendants"}),
+         2: ("OVERLAPPING", {"centre", "vertexcell", "crosses", "descendants"}),
+         3: ("OVERLAPPING_BBOX", {"centre", "vertexcell", "full", "crosses", "descendants", "box-contains-polygon", "box-corner-inside", "box-crosses"})}
 # the containment tests take all their arguments as pointers to const (polygonAlgos.h / polygon.h); LLVM does not always infer `readonly` for them
 READERS = ("pointInsidePolygon", "cellBoundaryInsidePolygon", "cellBoundaryCrossesPolygon")
 
@@ -102,32 +106,92 @@ def _sole_writer(m, f, A, callee, argk):
     return w
 
 
+def _local(m, f, o):
+    r = _root(m, f, o)
+    return r[1] if r[0] == "i" and f.insts[r[1]].op == "alloca" else None
+
+
+def _box_of(m, f, X, value, children):
+    """local BBox X was written only by cellToBBox(value, X, children)"""
+    wb = _sole_writer(m, f, X, "cellToBBox", 1)
+    return wb is not None and _strip(f, wb.ops[0]) == value and wb.ops[2][0] == "c" and wb.ops[2][1] == (1 if children else 0)
+
+
+def _boxboundary_of(m, f, B, value):
+    """local CellBoundary B was written only by bboxToCellBoundary(box) with box = cellToBBox(value, ., true)"""
+    w = _sole_writer(m, f, B, "bboxToCellBoundary", 0)
+    if w is None:
+        return False
+    X = _local(m, f, w.ops[1])
+    return X is not None and _box_of(m, f, X, value, True)
+
+
 def _gate_kind(m, f, g, value):
-    """kind of the test call g for the stored value (see module doc), or a description of why it is not one"""
-    if g.callee == "pointInsidePolygon":
-        C = _root(m, f, g.ops[2])
-        if C[0] != "i" or f.insts[C[1]].op != "alloca":
+    """kind of the test g (a call, or an equality compare) for the stored value (see module doc), else None"""
+    if g.op == "icmp":
+        # polygonCell == cell, polygonCell = latLngToCell(first polygon vertex)
+        if g.pred != "eq":
             return None
-        w = _sole_writer(m, f, C[1], "cellToLatLng", 1)
+        for x, y in ((g.ops[0], g.ops[1]), (g.ops[1], g.ops[0])):
+            if _strip(f, y) == value and x[0] == "i" and f.insts[x[1]].op == "load":
+                L = _local(m, f, f.insts[x[1]].ops[0])
+                if L is not None and _sole_writer(m, f, L, "latLngToCell", 2) is not None:
+                    return "vertexcell"
+        return None
+    if g.callee == "pointInsidePolygon":
+        C = _local(m, f, g.ops[2])
+        if C is None:
+            return None
+        w = _sole_writer(m, f, C, "cellToLatLng", 1)
         if w is not None and ir.field_path(m, f, g.ops[2])[1] == () and _strip(f, w.ops[0]) == value:
             return "centre"
+        if _boxboundary_of(m, f, C, value):
+            return "box-corner-inside"
         return None
-    if g.callee == "cellBoundaryInsidePolygon":
-        B = _root(m, f, g.ops[2])
-        if B[0] != "i" or f.insts[B[1]].op != "alloca":
+    if g.callee in ("cellBoundaryInsidePolygon", "cellBoundaryCrossesPolygon"):
+        B = _local(m, f, g.ops[2])
+        if B is None:
             return None
-        w = _sole_writer(m, f, B[1], "cellToBoundary", 1)
+        w = _sole_writer(m, f, B, "cellToBoundary", 1)
         if w is not None and _strip(f, w.ops[0]) == value:
-            return "full"
-        w = _sole_writer(m, f, B[1], "bboxToCellBoundary", 0)
-        if w is not None:
-            X = _root(m, f, w.ops[1])
-            if X[0] == "i" and f.insts[X[1]].op == "alloca":
-                wb = _sole_writer(m, f, X[1], "cellToBBox", 1)
-                if wb is not None and _strip(f, wb.ops[0]) == value and wb.ops[2][0] == "c" and wb.ops[2][1] == 1:
-                    return "descendants"
+            return "full" if g.callee == "cellBoundaryInsidePolygon" else "crosses"
+        if _boxboundary_of(m, f, B, value):
+            return "descendants" if g.callee == "cellBoundaryInsidePolygon" else "box-crosses"
+        return None
+    if g.callee == "bboxContainsBBox":
+        X = _local(m, f, g.ops[0])
+        if X is not None and _box_of(m, f, X, value, True):
+            return "box-contains-polygon"
         return None
     return None
+
+
+def _success_edges(f, g):
+    if g.op == "icmp":
+        out = []
+        for b in f.blocks:
+            t = b.term
+            if t.op == "br" and len(t.ops) == 3 and t.ops[0] == ["i", g.id] and t.ops[1][1] != t.ops[2][1]:
+                out.append((b.idx, t.ops[2][1]))
+        return out
+    return _true_edges(f, g)
+
+
+def _gated(f, edges, target):
+    """every path from the entry to block `target` uses one of the edges"""
+    es = set(edges)
+    seen, todo = set(), [0]
+    while todo:
+        x = todo.pop()
+        if x == target:
+            return False
+        if x in seen:
+            continue
+        seen.add(x)
+        for s_ in f.blocks[x].succs():
+            if (x, s_) not in es:
+                todo.append(s_)
+    return True
 
 
 def check(ctx, m, cfg):
@@ -218,16 +282,18 @@ def _hier(ctx, m, cfg):
                     stores.append((i, v))
     if len(stores) < 3:
         raise AnalysisBroken("iterStepPolygonCompact stores a cell into iter->cell at %d places (expected several)" % len(stores))
-    gates = [c for c in f.all_insts() if c.op == "call" and c.callee in ("pointInsidePolygon", "cellBoundaryInsidePolygon")]
-    kinds = {}
+    gates = [c for c in f.all_insts() if (c.op == "call" and c.callee in ("pointInsidePolygon", "cellBoundaryInsidePolygon", "cellBoundaryCrossesPolygon", "bboxContainsBBox"))
+             or (c.op == "icmp" and c.pred == "eq" and c.type == "i1")]
+    # per store: the success edges of the tests on the stored cell's own geometry, by kind
+    edges = {}
     for st, v in stores:
-        ks = set()
+        ek = {}
         for g in gates:
-            if any(_edge_dominates(f, a, b, st.block.idx) for a, b in _true_edges(f, g)):
-                k = _gate_kind(m, f, g, v)
-                if k:
-                    ks.add(k)
-        kinds[st.id] = ks
+            k = _gate_kind(m, f, g, v)
+            if k:
+                ek.setdefault(k, []).extend(_success_edges(f, g))
+        edges[st.id] = ek
+    kinds = {st.id: {k for k, es in edges[st.id].items() if es and _gated(f, es, st.block.idx)} for st, v in stores}
     flag_loads = []
     for i in f.all_insts():
         if i.op == "load":
@@ -256,12 +322,15 @@ def _hier(ctx, m, cfg):
         inst = {"function": f.name, "mode": name, "stores_reached": len(reached), "stores_total": len(stores), "config": cfg}
         if not reached:
             raise AnalysisBroken("no store of a cell is reachable in mode %s (engine lost the path)" % name)
-        bad = [(st, v) for st, v in stores if st.id in reached and not (kinds[st.id] & admitted)]
+        def gated(st):
+            es = [e for k, lst in edges[st.id].items() if k in admitted for e in lst]
+            return bool(es) and _gated(f, es, st.block.idx)
+        bad = [(st, v) for st, v in stores if st.id in reached and not gated(st)]
         if bad:
             st, v = bad[0]
             ctx.violation(RULE, "hier:%s" % name, "iterStepPolygonCompact, containment mode %s: the cell stored into iter->cell at %s has passed %s, not %s on its own geometry"
                           % (name, st.where(), " / ".join(sorted(kinds[st.id])) + " test" if kinds[st.id] else "no containment test", " or ".join(sorted(admitted))), st.where(), inst)
         else:
-            ctx.ok(RULE, inst, "mode %s: %d of the %d places that emit a cell are reachable; each is reached only through the success of a %s test on the emitted cell's own geometry"
+            ctx.ok(RULE, inst, "mode %s: %d of the %d places that emit a cell are reachable; every path to each of them passes the success edge of a test (%s) on the emitted cell's own geometry"
                    % (name, len(reached), len(stores), " / ".join(sorted(admitted))))
     return n
